@@ -1,0 +1,26 @@
+//go:build verif
+
+package syncer
+
+import (
+	"context"
+
+	"github.com/oasisprotocol/oasis-core/go/storage/mkvs/node"
+	"github.com/oasisprotocol/oasis-core/go/storage/mkvs/writelog"
+)
+
+// VerifMaxProofDepth exports maxProofDepth.
+const VerifMaxProofDepth = maxProofDepth
+
+// VerifWalk runs the package-private proof walk (verifyProof) from entry 0 at
+// depth 0, without the version/root pre-checks of verifyProofOpts, and returns
+// the index just past the last consumed entry, the subtree built, the write
+// log collected when requested, and the error.
+func VerifWalk(proof *Proof, writeLog bool) (int, *node.Pointer, writelog.WriteLog, error) {
+	var (
+		pv  ProofVerifier
+		res verifyResult
+	)
+	idx, ptr, err := pv.verifyProof(context.Background(), proof, 0, 0, &verifyOpts{writeLog: writeLog}, &res)
+	return idx, ptr, res.writeLog, err
+}
